@@ -84,7 +84,7 @@ var properties = map[string][]harnessSpec{
 		{Name: "note.VerifC09NewValue", Marks: end},
 		{Name: "note.VerifC09DegreeField", Quick: map[string]int{"C09.maxLen": 2}, Thorough: map[string]int{"C09.maxLen": 3}, Marks: []string{"end", "accepted"}},
 		{Name: "note.VerifC15SemitoneUnbounded", Solver: "cvc5-int", Marks: end, MustTerminate: true},
-		{Name: "play.VerifC09WriteNoPanic", Quick: map[string]int{"C09.maxInstances": 1}, Thorough: map[string]int{"C09.maxInstances": 2}, Marks: []string{"end", "refused", "played"}},
+		{Name: "play.VerifC09WriteNoPanic", Quick: map[string]int{"C09.maxInstances": 2}, Thorough: map[string]int{"C09.maxInstances": 3}, Marks: []string{"end", "refused", "played"}},
 		{Name: "chord.VerifC16UserDict", Quick: map[string]int{"C16.maxUser": 2}, Thorough: map[string]int{"C16.maxUser": 3}, Marks: []string{"end", "rejected", "accepted"}, MustTerminate: true},
 		{Name: "cmd.VerifC09MainExit", Marks: end},
 		{Name: "cmd.VerifC09WriteConv", Marks: []string{"end", "converted", "refused"}},
